@@ -133,3 +133,120 @@ Theorem Equiv_preserves_essential : forall (c : sctx) (a b : list item),
   Equiv c a b -> ess (flatten a) = ess (flatten b).
 Proof. intros c a b H. rewrite !ess_flatten. apply (Equiv_E c a b H). Qed.
 Print Assumptions Equiv_preserves_essential.
+
+(* ---------------------------------------------------------------------------------------------------------- *)
+(* the fuel of the closures loop (tokens.py:338, the only fuelled recursion of the model) never runs out: any two
+   fuels above the length of the list give the same result, so closures_run's S (length l) is as good as any *)
+Theorem closures_fuel_irrelevant : forall (f1 f2 : nat) (res l : list item),
+  (length l < f1)%nat -> (length l < f2)%nat -> closures f1 res l = closures f2 res l.
+Proof. exact closures_fuel_irrelevant_lemma. Qed.
+Print Assumptions closures_fuel_irrelevant.
+
+Theorem closures_run_fuel : forall (l : list item) (k : nat), closures_run l = closures (S (length l) + k) [] l.
+Proof. exact closures_run_fuel_lemma. Qed.
+Print Assumptions closures_run_fuel.
+
+(* imports: the canonical USE strings of a run are one per (attributes, visibility) class; the leaf strings of a
+   class are exactly those parsed from the run's statements with that head (entry_leaves = the rendered
+   parse_entries, cf. use_leaves_sound / use_leaves_set): nothing invented, nothing dropped, classes not mixed *)
+Theorem flush_run_classes : forall (o : opts) (sts : list run_entry),
+  exists cs, flush_run o (Some (RUse, sts)) = map (fun c => Tok (use_string c)) cs /\ UseClasses o (rev sts) cs.
+Proof. exact flush_run_use_spec. Qed.
+Print Assumptions flush_run_classes.
+
+(* reorder_runs on one level: the level is a sequence of segments and a tail; a segment is a statement kept as it
+   is, a run of imports replaced by the strings of its classes, or a run of mod / extern crate declarations
+   replaced by a permutation of their strings *)
+Theorem reorder_runs_spec : forall (o : opts) (seq : list item), LevelSpec o seq (reorder_runs o seq).
+Proof. exact reorder_runs_level. Qed.
+Print Assumptions reorder_runs_spec.
+
+(* P2 END TO END (the whole pipeline, reorder_runs included).  T = the tree after the core passes and merge_derives.
+   (1) T has the essential atoms of the input, in order (the attribute mark and `derive` not counted);
+   (2,3) the atoms of T outside the reorderable runs, at every nesting level, are a subsequence of T's atoms and
+   appear, in the same order, in the normal form;  (4) the normal form is T with, at every level, each run replaced
+   as reorder_runs_spec says.  A token outside the runs can therefore not be dropped, altered or moved, and inside
+   a run of imports the set of (class, leaf) pairs is kept. *)
+Theorem norm_preserves_essential : forall (o : opts) (ts : list tok),
+  ess_md (flatten (post_core_items o ts)) = ess_md (atoms_of o ts) /\
+  Sub (outside o (post_core_items o ts)) (flatten (post_core_items o ts)) /\
+  Sub (outside o (post_core_items o ts)) (norm o ts) /\
+  TreeSpec o (post_core_items o ts) (norm_items o ts).
+Proof. exact norm_preserves_essential_lemma. Qed.
+Print Assumptions norm_preserves_essential.
+
+(* the same on essential atoms only: those outside the runs are essential atoms of the input, in order, and are
+   essential atoms of the normal form, in order *)
+Theorem norm_outside_essential : forall (o : opts) (ts : list tok),
+  Sub (ess_md (outside o (post_core_items o ts))) (ess_md (atoms_of o ts)) /\
+  Sub (ess_md (outside o (post_core_items o ts))) (ess_md (norm o ts)).
+Proof. exact norm_outside_essential_lemma. Qed.
+Print Assumptions norm_outside_essential.
+
+(* what is FALSE of the model.  The multiset of essential atoms is not preserved by the whole pipeline (merging
+   imports drops duplicates: use a; use a; and use a; have the same normal form) *)
+Theorem essential_multiset_refuted : exists (o : opts) (a b : list tok),
+  norm o a = norm o b /\ ~ Permutation (ess (atoms_of o a)) (ess (atoms_of o b)).
+Proof. exact essential_multiset_refuted_lemma. Qed.
+Print Assumptions essential_multiset_refuted.
+
+(* FINDING: the USE string joins the head atoms by blanks, and doc comments contain blanks:
+   /// x pub  use a;   and   /// x  pub use a;   have the same normal form (a visibility hidden in a doc comment) *)
+Theorem use_head_ambiguous_refuted : exists (o : opts) (a b : list tok),
+  norm o a = norm o b /\ In s_pub (atoms_of o b) /\ ~ In s_pub (atoms_of o a).
+Proof. exact use_head_ambiguous_refuted_lemma. Qed.
+Print Assumptions use_head_ambiguous_refuted.
+
+(* FINDING: macro matchers are not compared verbatim by the whole pipeline: merge_derives merges derives and
+   reorder_runs reorders imports inside a matcher too (the core pipeline tells the definitions apart) *)
+Theorem matchers_verbatim_refuted : exists (o : opts) (a b a' b' : list tok),
+  (norm o a = norm o b /\ norm_core o a <> norm_core o b) /\
+  (norm o a' = norm o b' /\ norm_core o a' <> norm_core o b').
+Proof. exact matchers_verbatim_refuted_lemma. Qed.
+Print Assumptions matchers_verbatim_refuted.
+
+(* ---------------------------------------------------------------------------------------------------------- *)
+(* P3 for the whole pipeline.  StepF = Step + merge_derives + import_regroup + reorder_items (Model.v); EquivF its
+   closure under nesting, as Equiv.  The core relation embeds: *)
+Theorem Equiv_in_EquivF : forall (o : opts) (c : sctx) (a b : list item), Equiv c a b -> EquivF o c a b.
+Proof. exact Equiv_EquivF. Qed.
+Print Assumptions Equiv_in_EquivF.
+
+(* per-pass: merge_derives and reorder_runs / norm_tree are chains of steps, provided they leave the bodies of
+   macro_rules definitions alone (msafe_seq; see matchers_verbatim_refuted for why this cannot be dropped) *)
+Theorem merge_derives_is_steps : forall (o : opts) (c : sctx) (seq : list item),
+  c <> CMacro -> msafe_seq md_item seq -> EquivF o c seq (merge_derives seq).
+Proof. exact merge_derives_equiv. Qed.
+Print Assumptions merge_derives_is_steps.
+
+Theorem reorder_runs_is_steps : forall (o : opts) (c : sctx) (seq : list item),
+  c <> CMacro -> EquivF o c seq (reorder_runs o seq).
+Proof. exact reorder_runs_equiv. Qed.
+Print Assumptions reorder_runs_is_steps.
+
+Theorem norm_tree_is_steps : forall (o : opts) (c : sctx) (seq : list item),
+  c <> CMacro -> msafe_seq (norm_tree_item o) seq -> EquivF o c seq (norm_tree o seq).
+Proof. exact norm_tree_equiv. Qed.
+Print Assumptions norm_tree_is_steps.
+
+(* two runs of imports with the same canonical form are equivalent (import_regroup between programs) *)
+Theorem import_regroup_by_canonical_form : forall (o : opts) (c : sctx) (pre : list item) (sts1 sts2 : list run_entry)
+  (post : list item),
+  c <> CMacro -> sts1 <> [] -> sts2 <> [] -> Forall (entry_kind RUse) sts1 -> Forall (entry_kind RUse) sts2 ->
+  flush_run o (Some (RUse, rev sts1)) = flush_run o (Some (RUse, rev sts2)) ->
+  EquivF o c (pre ++ concat (map snd sts1) ++ post) (pre ++ concat (map snd sts2) ++ post).
+Proof. exact import_regroup_lemma. Qed.
+Print Assumptions import_regroup_by_canonical_form.
+
+(* norm_sound: two programs with the same normal form (as trees) are related by finitely many steps of the closed
+   list, forwards or backwards.  Hypotheses: post_safe (above).  What remains TRUSTED / outside the relation:
+   (a) the atom-level normalisations done while building the tree (doc re-indentation, string continuations, CRLF,
+   tuple-index floats, opt-in literal spellings): both sides go through `tree o`, and doc_norm / lit_norm / atom are
+   specified only by the validated code;  (b) the checker compares flatten (norm_items ..), i.e. `norm`: injectivity
+   of flatten on normal forms is not proved;  (c) import_regroup is stated through the canonical strings, whose
+   rendering is ambiguous (use_head_ambiguous_refuted). *)
+Theorem norm_sound : forall (o : opts) (a b : list tok),
+  post_safe o a -> post_safe o b -> norm_items o a = norm_items o b ->
+  EquivF o CTop (tree o (significant a)) (tree o (significant b)).
+Proof. exact norm_sound_lemma. Qed.
+Print Assumptions norm_sound.
